@@ -15,7 +15,8 @@
 //!   clock <n> <mono_bad> <real_bad> <max_ns>   vDSO-path now() sandwiched between two clock_gettime syscalls
 //!   phdr/dyn/rel/rela/relv ...     the executable's own program headers, dynamic section, relocation tables
 //!                                  and the *current* words at the R_RELATIVE targets
-//! Requests come on stdin: `k <keyhex>`, `clock <n>`, `reloc`, `stack`.
+//!   it <tag>=<answer>*            answers of one script of calls on ONE fresh iterator object (see `run_script`)
+//! Requests come on stdin: `k <keyhex>`, `clock <n>`, `reloc`, `stack`, `it <os|args> <op>*`.
 #![no_std]
 #![no_main]
 extern crate alloc;
@@ -320,6 +321,151 @@ fn clock(o: &mut Out, n: usize) {
     o.nl();
 }
 
+/// more items than any argument vector this mode is run with: an adapter that yields this many never ends
+const ITEM_CAP: usize = 64;
+
+fn show_os(o: &mut Out, x: &'static UnixStr) {
+    let sl = x.as_slice();
+    o.hex(&sl[..sl.len() - 1]);
+}
+
+fn show_arg(o: &mut Out, x: Result<&'static str, tiny_std::Error>) {
+    match x {
+        Ok(s) => {
+            o.s("ok:");
+            o.hex(s.as_bytes());
+        }
+        Err(_) => o.s("err"),
+    }
+}
+
+fn show_opt<T>(o: &mut Out, x: Option<T>, show: fn(&mut Out, T)) {
+    match x {
+        Some(v) => {
+            o.s("S:");
+            show(o, v);
+        }
+        None => o.s("None"),
+    }
+}
+
+fn show_list<T>(o: &mut Out, v: Vec<T>, show: fn(&mut Out, T)) {
+    o.s("[");
+    let mut first = true;
+    for x in v {
+        if !first {
+            o.s(",");
+        }
+        first = false;
+        show(o, x);
+    }
+    o.s("]");
+}
+
+/// A script of calls on ONE iterator object, every call through the method a program would use (so that an
+/// override of `nth`, `count`, `last`, `fold`, `size_hint`, `len` in the library is the code that runs):
+///   n        it.next()                          l   it.len()            (ExactSizeIterator)
+///   N:<k>    it.nth(k)                          h   it.size_hint()
+///   s:<k>    it.by_ref().skip(k).next()         c   it.count()          (by value: last op of a script)
+///   t:<k>    it.by_ref().step_by(k) polled      L   it.last()           (by value)
+///            until None (k > 0)                 f   it.fold(..) collecting every item (by value)
+fn run_script<'a, I: ExactSizeIterator>(
+    o: &mut Out,
+    mut it: I,
+    toks: &mut dyn Iterator<Item = &'a [u8]>,
+    show: fn(&mut Out, I::Item),
+) {
+    while let Some(t) = toks.next() {
+        o.s(" ");
+        let (op, arg) = match t.iter().position(|c| *c == b':') {
+            Some(i) => (&t[..i], parse_dec(&t[i + 1..])),
+            None => (t, None),
+        };
+        match (op, arg) {
+            (b"n", None) => {
+                o.s("n=");
+                show_opt(o, it.next(), show);
+            }
+            (b"N", Some(k)) => {
+                o.s("N=");
+                show_opt(o, it.nth(k), show);
+            }
+            (b"s", Some(k)) => {
+                o.s("s=");
+                show_opt(o, it.by_ref().skip(k).next(), show);
+            }
+            (b"t", Some(k)) if k > 0 => {
+                o.s("t=");
+                let mut v = Vec::new();
+                let mut st = it.by_ref().step_by(k);
+                loop {
+                    match st.next() {
+                        Some(x) => v.push(x),
+                        None => break,
+                    }
+                    if v.len() > ITEM_CAP {
+                        o.s("overrun");
+                        show_list(o, v, show);
+                        return;
+                    }
+                }
+                show_list(o, v, show);
+            }
+            (b"l", None) => {
+                o.s("l=");
+                o.num(it.len() as u128);
+            }
+            (b"h", None) => {
+                let (lo, hi) = it.size_hint();
+                o.s("h=");
+                o.num(lo as u128);
+                o.s(",");
+                match hi {
+                    Some(h) => o.num(h as u128),
+                    None => o.s("none"),
+                }
+            }
+            (b"c", None) => {
+                o.s("c=");
+                o.num(it.count() as u128);
+                if toks.next().is_some() {
+                    o.s(" bad-op");
+                }
+                return;
+            }
+            (b"L", None) => {
+                o.s("L=");
+                show_opt(o, it.last(), show);
+                if toks.next().is_some() {
+                    o.s(" bad-op");
+                }
+                return;
+            }
+            (b"f", None) => {
+                o.s("f=");
+                let v = it.fold(Vec::new(), |mut v, x| {
+                    if v.len() <= ITEM_CAP {
+                        v.push(x);
+                    }
+                    v
+                });
+                if v.len() > ITEM_CAP {
+                    o.s("overrun");
+                }
+                show_list(o, v, show);
+                if toks.next().is_some() {
+                    o.s(" bad-op");
+                }
+                return;
+            }
+            _ => {
+                o.s("bad-op");
+                return;
+            }
+        }
+    }
+}
+
 #[no_mangle]
 pub fn main() -> i32 {
     let input = read_all_stdin();
@@ -469,6 +615,15 @@ pub fn main() -> i32 {
                     }
                     o.nl();
                 }
+            }
+            b"it" => {
+                o.s("it");
+                match w.next() {
+                    Some(b"os") => run_script(&mut o, tiny_std::env::args_os(), &mut w, show_os),
+                    Some(b"args") => run_script(&mut o, tiny_std::env::args(), &mut w, show_arg),
+                    _ => o.s(" bad-op"),
+                }
+                o.nl();
             }
             b"clock" => {
                 let n = w.next().and_then(parse_dec).unwrap_or(100);
